@@ -397,7 +397,7 @@ func (c *Ctx) stillFails(kind string, raw []byte, clause string) bool {
 
 func (c *Ctx) shrink(f Failure) Failure {
 	sh := shrinkers[c.P.ID]
-	if sh == nil {
+	if sh == nil || os.Getenv("VERIF_NOSHRINK") != "" {
 		return f
 	}
 	cur := []byte(f.Case)
